@@ -3,7 +3,9 @@ from __future__ import annotations
 
 import ast
 import collections.abc
+import functools
 import json
+import os
 import re
 import time
 import types as pytypes
@@ -12,7 +14,7 @@ import warnings
 
 from .. import typetrees as tt
 from ..common import hx, unhx
-from ..runner import Check
+from ..runner import Campaign, Check, match_finding
 
 SPECIALS = set("[],|")
 
@@ -114,6 +116,31 @@ def eval_hint(hint: str):
     with warnings.catch_warnings():
         warnings.simplefilter("ignore")
         return eval(hint, {"__builtins__": {"int": int, "str": str, "float": float, "bool": bool, "bytes": bytes, "list": list, "set": set, "dict": dict, "frozenset": frozenset, "None": None}}, _scope())  # noqa: S307
+
+
+@functools.lru_cache(maxsize=400000)
+def nf_of_hint(hint: str) -> str:
+    """normal form of the evaluated hint, or "!<exception>" (the `X | Y` spelling evaluates on Python ≥ 3.10:
+    classes, typing aliases, None and the stand-in classes all implement `|`)"""
+    try:
+        return nf(eval_hint(hint))
+    except Exception as e:  # noqa: BLE001
+        return f"!{type(e).__name__}"
+
+
+def wrapper_subscripts(tree: ast.AST) -> int:
+    """number of `Optional[…]` / `Union[…]` subscriptions in a hint (outside Literal[…])"""
+    n = 0
+    todo = [tree]
+    while todo:
+        x = todo.pop()
+        if isinstance(x, ast.Subscript) and isinstance(x.value, ast.Name):
+            if x.value.id == "Literal":
+                continue
+            if x.value.id in ("Optional", "Union"):
+                n += 1
+        todo.extend(ast.iter_child_nodes(x))
+    return n
 
 
 def none_counts(tree: ast.AST) -> int:
@@ -255,96 +282,295 @@ def triggers(d) -> list[str]:
 def in_ir_domain(d) -> bool:
     """trees the property quantifies over: what the IR expresses (names are identifiers, no empty node,
     one container bit, type XOR children); literals and optional flags are free"""
-    t = triggers(d)
-    return not ({"name_not_identifier", "empty_node", "type_and_children", "several_containers", "typing_name_as_type"} & set(t))
+    return not (NOT_IR & set(triggers(d)))
 
 
 # ---------------------------------------------------------------- the property's own oracle on one tree
-def oracle_tree(ck: Check, camp, d, model_den: dict | None = None) -> None:
-    """all 8 spellings of the real hint of `d`: parse, evaluate, same normal form; no double Optional;
-    None once; making the root optional keeps the alternatives"""
-    trig = triggers(d)
+# ---------------------------------------------------------------- a failing tree as a document for generate()
+PRIMS = {"int": "integer", "str": "string", "float": "number", "bool": "boolean"}
 
+
+def schema_of(d):
+    """a JSON Schema whose type is (meant to be) the tree `d`, or None when the tree has no simple schema"""
+    if d["key"] is not None or d["ref"] is not None or d["imp"] is not None:
+        return None
+    conts = [k for k in ("list", "set", "dict") if d[k]]
+    if len(conts) > 1:
+        return None
+    if d["ty"]:
+        if d["kids"] or d["lits"]:
+            return None
+        if d["ty"] == "None":
+            inner = {"type": "null"}
+        elif d["ty"] == "Any":
+            inner = {}
+        elif d["ty"] in PRIMS:
+            inner = {"type": PRIMS[d["ty"]]}
+        else:
+            return None
+    elif d["lits"]:
+        if d["kids"]:
+            return None
+        inner = {"enum": list(d["lits"])}
+    elif len(d["kids"]) == 1:
+        inner = schema_of(d["kids"][0])
+    elif len(d["kids"]) >= 2:
+        subs = [schema_of(k) for k in d["kids"]]
+        if any(x is None for x in subs):
+            return None
+        inner = {"anyOf": subs}
+    else:
+        return None
+    if inner is None:
+        return None
+    if conts == ["list"]:
+        s = {"type": "array", "items": inner}
+    elif conts == ["set"]:
+        s = {"type": "array", "uniqueItems": True, "items": inner}
+    elif conts == ["dict"]:
+        s = {"type": "object", "additionalProperties": inner}
+    else:
+        s = inner
+    if d["opt"]:
+        s = {"anyOf": [s, {"type": "null"}]}
+    return s
+
+
+def embed_document(d, fb=None):
+    """Best effort: a JSON Schema document with one property of (about) the type `d`, generated with and without
+    --use-union-operator (enum members as Literal): returned when the two emitted annotations are not both well-formed
+    expressions denoting the same type — the failing tree as an input of generate()."""
+    try:
+        from datamodel_code_generator import LiteralType
+
+        from .. import e2e
+
+        s = schema_of(d)
+        if s is None:
+            return None
+        required = True if fb is None else bool(fb.get("required"))
+        doc = {"title": "Model", "type": "object", "properties": {"a": s}}
+        if required:
+            doc["required"] = ["a"]
+        anns = {}
+        for u in (False, True):
+            r = e2e.run_generate(doc, opts={"use_union_operator": u, "enum_field_as_literal": LiteralType.All})
+            if not r.ok:
+                return None
+            mod = ast.parse(r.code)
+            for node in ast.walk(mod):
+                if isinstance(node, ast.AnnAssign) and isinstance(node.target, ast.Name) and node.target.id == "a":
+                    anns[u] = ast.get_source_segment(r.code, node.annotation)
+        if len(anns) != 2:
+            return None
+        res = {u: check_one(a, None) for u, a in anns.items()}
+        if res[False][0] is None and res[True][0] is None and res[False][1] == res[True][1]:
+            return None
+        return {"json_schema": doc, "generate_options": "--enum-field-as-literal all, with / without --use-union-operator",
+                "annotation_without_union_operator": anns[False], "annotation_with_union_operator": anns[True],
+                "verdicts": {"without": list(res[False]), "with": list(res[True])}}
+    except Exception:  # noqa: BLE001  (an aid for the reader of the replay file, never part of the verdict)
+        return None
+
+
+D9_CHARS = {"typing": "[]", "operator": "|"}  # what the pinned defect D9 misreads: a bracket for the Union[…] scanner, a | for the | splitter
+
+
+def strip_literal_chars(d, chars: str):
+    """the same tree with the given characters taken out of every literal value (values that coincide afterwards are kept once)"""
+
+    def lits(vs):
+        out = []
+        for v in vs:
+            w = "".join("x" if c in chars else c for c in v) if isinstance(v, str) else v
+            if not any(type(w) is type(x) and w == x for x in out):
+                out.append(w)
+        return out
+
+    def f(n):
+        if n is None:
+            return None
+        return dict(n, lits=lits(n["lits"]), key=f(n["key"]), kids=[f(k) for k in n["kids"]])
+
+    return f(d)
+
+
+def check_one(h: str, den: str | None):
+    """(mechanism, message) of the first clause of the property the hint fails, else (None, its normal form)"""
+    if not balanced_outside_strings(h):
+        return "unbalanced", f"brackets of {h!r} are not balanced"
+    try:
+        tree = ast.parse(h, mode="eval").body
+    except SyntaxError as e:
+        return "unparsable", f"{h!r} is not an expression: {e}"
+    if "Optional[Optional[" in h:
+        return "double_optional", f"doubly wrapped optional in {h!r}"
+    if none_counts(tree) > 1:
+        return "none_twice", f"None occurs more than once in one union of {h!r}"
+    try:
+        v = nf(eval_hint(h))
+    except Exception as e:  # noqa: BLE001
+        return "eval_error", f"{h!r} does not evaluate to a type: {type(e).__name__}: {e}"
+    if den is not None and v != den:
+        return "denotation_differs", f"{h!r} evaluates to {v} but the type tree denotes {den}"
+    return None, v
+
+
+def model_dens(ck: Check, d, only=None) -> dict:
+    """denotation of the structural rendering of the tree (Lean: denote ∘ hintE) per option vector"""
+    os_ = [o for o in tt.OPTION_VECTORS if only is None or o in only]
+    reps = ck.driver.run([f"types.hintexpr {tt.opt_bits(o)} {tt.sx(d)}" for o in os_])
+    return {o: unhx(r.split(" ")[3]) for o, r in zip(os_, reps) if r.startswith("ok ")}
+
+
+def oracle_core(ck: Check, camp, d, hint_of, trig: list[str], dens: dict | None, level: str = "type", extra: dict | None = None,
+                only=None, attribute: bool = True, embed: bool = True) -> None:
+    """The property's own oracle on the 8 spellings of one annotation (`hint_of(d, o)`): each spelling is a balanced,
+    parsable, evaluable expression without a doubly wrapped optional and with None at most once per union, it
+    evaluates to the denotation of the type tree (`dens`, when given), and all spellings denote the same type.
+    A spelling that fails by a KNOWN finding is set aside and the others are still examined."""
+    extra = extra or {}
     base = {"oracle": "hint", "triggers": trig}
-    _fail = ck.fail
+    if level != "type":
+        base["level"] = level
+    os_ = [o for o in tt.OPTION_VECTORS if only is None or o in only]
 
-    def fail(cls, inp, observed):
+    def still_fails(d2, sel) -> bool:
+        probe = Check(ck.prop, ck.tier)
+        probe.findings = []
+        oracle_core(probe, Campaign("probe"), d2, hint_of, triggers(d2), model_dens(ck, d2, sel) if dens is not None else None,
+                    level, extra, only=sel, attribute=False)
+        return bool(probe.failures)
+
+    def literal_trigger(cls) -> str | None:
+        """A tree with special characters in literal values.  (A) If the failure is still there when ALL of [ ] , | are
+        taken out of the literal values, the literals have nothing to do with it: None (classify by the other triggers).
+        (B) The pinned defect D9 is about a bracket (Union[…] spelling) resp. a | (| spelling) inside a literal value:
+        the failure is D9's ("literal_special") only if it goes away when exactly those characters are taken out;
+        otherwise it is some other misreading of literal text ("literal_other", not a known finding)."""
+        if not attribute:
+            return "literal_other"
+        cross = cls["mechanism"] in ("spelling_differs", "alternative_lost")
+        sel = None if cross else {o for o in tt.OPTION_VECTORS if o[0] == (cls["spelling"] == "operator")}
+        if still_fails(strip_literal_chars(d, "[],|"), sel):
+            return None
+        chars = "[]|" if cross else D9_CHARS[cls["spelling"]]
+        d2 = strip_literal_chars(d, chars)
+        if d2 == d:
+            return "literal_other"
+        return "literal_other" if still_fails(d2, sel) else "literal_special"
+
+    clean = [True]
+
+    def fail(cls, inp, observed) -> bool:
         """classify: which property of the tree explains this mechanism"""
+        clean[0] = False
         mech, hint = cls["mechanism"], str(inp.get("hint", "")) + str(inp.get("optional_hint", ""))
+        lit = None
         if "Union[]" in hint and "union_of_only_none" in trig:
             cls["trigger"] = "union_of_only_none"
-        elif mech == "spelling_differs" and "optional_member_of_container_union" in trig and "literal_special" not in trig:
-            cls["trigger"] = "optional_member_of_container_union"
         elif mech in ("double_optional", "none_twice") and "optional_inside_union_or_optional" in trig:
             cls["trigger"] = "optional_inside_union_or_optional"
-        elif "literal_special" in trig:
-            cls["trigger"] = "literal_special"
+        elif level == "field" and mech in ("double_optional", "none_twice") and d["ty"] == "Any" and (d["list"] or d["set"] or d["dict"]):
+            # the field-level exemption `data_type.type != ANY` looks at the raw type of a List[Any] / Dict[str, Any]
+            cls["trigger"] = "optional_any_container_field"
+        elif "literal_special" in trig and (lit := literal_trigger(cls)) is not None:
+            cls["trigger"] = lit
+        elif mech in ("spelling_differs", "denotation_differs") and "optional_member_of_container_union" in trig:
+            cls["trigger"] = "optional_member_of_container_union"
         else:
-            cls["trigger"] = [t for t in trig if t not in ("union_of_only_none",)][0] if any(t != "union_of_only_none" for t in trig) else trig[0]
-        return _fail(cls, inp, observed)
+            rest = [t for t in trig if t not in ("union_of_only_none", "literal_special")] or trig
+            cls["trigger"] = rest[0]
+        if embed and attribute and match_finding(ck.findings, cls) is None and not ck.failures:
+            doc = embed_document(d, extra.get("field"))
+            if doc is not None:
+                inp = {**inp, "document": doc}
+        return ck.fail(cls, inp, observed)
 
     hints = {}
-    for o in tt.OPTION_VECTORS:
-        h, _ = real_hint(d, o)
+    for o in os_:
+        h = hint_of(d, o)
         if h == "!exc":
             camp.hit("real_raises")
             return
         hints[o] = h
     nfs = {}
     for o, h in hints.items():
-        inp = {"tree": d, "opts": list(o), "hint": h}
         sp = "operator" if o[0] else "typing"
         if h == "":
             camp.hit("empty_hint")
             return
-        if not balanced_outside_strings(h):
-            fail({**base, "mechanism": "unbalanced", "spelling": sp}, inp, f"brackets of {h!r} are not balanced")
+        mech, val = check_one(h, dens.get(o) if dens else None)
+        if mech is None:
+            nfs[o] = val
+        elif fail({**base, "mechanism": mech, "spelling": sp}, {"tree": d, "opts": list(o), "hint": h, **extra}, val):
             return
-        try:
-            tree = ast.parse(h, mode="eval").body
-        except SyntaxError as e:
-            fail({**base, "mechanism": "unparsable", "spelling": sp}, inp, f"{h!r} is not an expression: {e}")
-            return
-        if "Optional[Optional[" in h:
-            fail({**base, "mechanism": "double_optional", "spelling": sp}, inp, f"doubly wrapped optional in {h!r}")
-            return
-        if none_counts(tree) > 1:
-            fail({**base, "mechanism": "none_twice", "spelling": sp}, inp, f"None occurs more than once in one union of {h!r}")
-            return
-        try:
-            nfs[o] = nf(eval_hint(h))
-        except Exception as e:  # noqa: BLE001
-            fail({**base, "mechanism": "eval_error", "spelling": sp}, inp, f"{h!r} does not evaluate to a type: {type(e).__name__}: {e}")
-            return
-    ref = nfs[tt.OPTION_VECTORS[0]]
-    for o, v in nfs.items():
-        if v != ref:
-            fail(
-                {**base, "mechanism": "spelling_differs", "spelling": "operator" if o[0] else "typing"},
-                {"tree": d, "opts": list(o), "hint": hints[o], "baseline_hint": hints[tt.OPTION_VECTORS[0]]},
-                f"{hints[o]!r} denotes {v} but {hints[tt.OPTION_VECTORS[0]]!r} denotes {ref}",
-            )
-            return
+    # the spellings that are fine by themselves denote the same type
+    if nfs:
+        o0 = next(iter(nfs))
+        for o, v in nfs.items():
+            if v != nfs[o0]:
+                if fail({**base, "mechanism": "spelling_differs", "spelling": "operator" if o[0] else "typing"},
+                        {"tree": d, "opts": list(o), "hint": hints[o], "baseline_opts": list(o0), "baseline_hint": hints[o0], **extra},
+                        f"{hints[o]!r} denotes {v} but {hints[o0]!r} denotes {nfs[o0]}"):
+                    return
+                break
     # optional keeps alternatives: the same tree with the root flagged optional
-    if not d["opt"]:
+    if level == "type" and not d["opt"]:
         d2 = dict(d, opt=True)
-        for o in (tt.OPTION_VECTORS[0], tt.OPTION_VECTORS[4]):
-            h2, _ = real_hint(d2, o)
+        for o in (TYPING0, OPERATOR0):
+            if o not in nfs:
+                continue
+            h2 = hint_of(d2, o)
             try:
                 a2 = set(_alts(eval_hint(h2))[0])
             except Exception:  # noqa: BLE001  (reported by the case where d2 itself is drawn)
                 continue
             a1 = set(_alts(eval_hint(hints[o]))[0])
             if not a1 <= a2 and hints[o] != "Any":
-                fail(
-                    {**base, "mechanism": "alternative_lost", "spelling": "operator" if o[0] else "typing"},
-                    {"tree": d, "opts": list(o), "hint": hints[o], "optional_hint": h2},
-                    f"optional form {h2!r} lost alternatives {sorted(a1 - a2)} of {hints[o]!r}",
-                )
-                return
-    if model_den is not None:
-        model_den["nf"] = ref
-    camp.distinct.add(json.dumps(d, sort_keys=True, default=str))
+                if fail({**base, "mechanism": "alternative_lost", "spelling": "operator" if o[0] else "typing"},
+                        {"tree": d, "opts": list(o), "hint": hints[o], "optional_hint": h2},
+                        f"optional form {h2!r} lost alternatives {sorted(a1 - a2)} of {hints[o]!r}"):
+                    return
+    if clean[0]:
+        camp.distinct.add(json.dumps([d, extra], sort_keys=True, default=str))
+
+
+TYPING0, OPERATOR0 = (False, False, False), (True, False, False)
+
+
+def oracle_tree(ck: Check, camp, d, dens: dict | None = None, trig: list[str] | None = None, embed: bool = True) -> None:
+    """`DataType(...).type_hint` of the tree `d` in all 8 spellings"""
+    oracle_core(ck, camp, d, lambda x, o: real_hint(x, o)[0], triggers(d) if trig is None else trig, dens, embed=embed)
+
+
+def field_hint(d, o, fb) -> str:
+    """`DataModelFieldBase.type_hint` (resp. the TypedDict member without its NotRequired[…]) of a field of type `d`"""
+    from datamodel_code_generator.model.base import DataModelFieldBase
+    from datamodel_code_generator.model.typed_dict import DataModelField as TDField
+    from datamodel_code_generator.model.typed_dict import TypedDict
+    from datamodel_code_generator.reference import Reference
+
+    try:
+        dt = tt.build(d, o)
+        kw = dict(name="f", data_type=dt, required=fb["required"], nullable=fb["nullable"], type_has_null=fb["type_has_null"],
+                  extras={"default_factory": "list"} if fb["default_factory"] else {})
+        if fb["typed_dict"]:
+            f = TDField(**kw)
+            TypedDict(reference=Reference(path="#/T", name="T"), fields=[f])
+            impl = f.type_hint
+            if not fb["required"]:
+                assert impl.startswith("NotRequired[") and impl.endswith("]"), impl
+                impl = impl[len("NotRequired[") : -1]
+            return impl
+        return DataModelFieldBase(**kw).type_hint
+    except Exception:  # noqa: BLE001
+        return "!exc"
+
+
+def oracle_field(ck: Check, camp, d, fb, trig: list[str] | None = None, embed: bool = True) -> None:
+    """the annotation of a FIELD of type `d` (the field-level optional decision on top of the type's hint) in all 8 spellings"""
+    oracle_core(ck, camp, d, lambda x, o: field_hint(x, o, fb), triggers(d) if trig is None else trig, None, level="field", extra={"field": fb}, embed=embed)
 
 
 # ---------------------------------------------------------------- campaigns
@@ -427,82 +653,276 @@ def tree_stream(ck: Check, n_plain: int, n_adv: int, thorough: bool):
             yield "small_scope", d
 
 
+NOT_IR = {"name_not_identifier", "empty_node", "type_and_children", "several_containers", "typing_name_as_type"}
+CONTAINER_SPELLINGS = [(False, False), (True, False), (False, True), (True, True)]  # (std, generic): order of containerSpellings
+
+
+def tree_requests(d) -> list[str]:
+    """17 request lines: for each option vector the model of `type_hint` and the structural rendering; then the
+    decidable hypotheses of the theorems"""
+    s = tt.sx(d)
+    out = []
+    for o in tt.OPTION_VECTORS:
+        out.append(f"types.hint {tt.opt_bits(o)} {s}")
+        out.append(f"types.hintexpr {tt.opt_bits(o)} {s}")
+    out.append(f"types.region {s}")
+    return out
+
+
+N_REQ = 17
+
+
+def real_side(d) -> dict:
+    """everything that is asked of the real code for one tree (runs in the check or in a worker process):
+    the 8 hints, the classification of the tree, and Python's view of each hint (normal form of the evaluated
+    hint, number of None per union, number of Optional[/Union[ subscriptions)"""
+    hints = {o: real_hint(d, o) for o in tt.OPTION_VECTORS}
+    trig = triggers(d)
+    domain = not (NOT_IR & set(trig))
+    evaluable = domain and "literal_special" not in trig
+    nfs, nnone, nwrap = {}, {}, {}
+    if evaluable:
+        for o, (h, _) in hints.items():
+            if h == "!exc":
+                continue
+            nfs[o] = nf_of_hint(h)
+            try:
+                tree = ast.parse(h, mode="eval").body if h else None
+            except SyntaxError:
+                tree = None
+            if tree is not None:
+                nnone[o], nwrap[o] = none_counts(tree), wrapper_subscripts(tree)
+    return {"hints": hints, "trig": trig, "domain": domain, "evaluable": evaluable, "nfs": nfs, "nnone": nnone, "nwrap": nwrap}
+
+
+_probe: Check | None = None
+
+
+def _worker(ds: list) -> list:
+    """real side + the property's oracle on a chunk of trees (same known findings as the check): the classified
+    oracle events are returned and replayed by the parent through its own `fail`, so the verdict is formed in one place"""
+    global _probe
+    if _probe is None:
+        _probe = Check("C13", "thorough")
+    out = []
+    for d in ds:
+        r = real_side(d)
+        if r["domain"]:
+            events = []
+            _probe.failures = []
+            orig = Check.fail.__get__(_probe)
+
+            def rec(cls, inp, observed, expected="", _orig=orig, _ev=events):
+                _ev.append((cls, inp, observed))
+                return _orig(cls, inp, observed, expected)
+
+            _probe.fail = rec
+            oracle_tree(_probe, Campaign("probe"), d, trig=r["trig"], embed=False)
+            r["oracle_events"] = events
+            r["oracle_new"] = bool(_probe.failures)
+        out.append(r)
+    return out
+
+
+class TreeCampaigns:
+    def __init__(self, ck: Check, label: str = "") -> None:
+        sfx = f" [{label}]" if label else ""
+        self.camp = ck.campaign("types.hint vs DataType(...).type_hint and is_optional afterwards (8 option vectors per tree)" + sfx)
+        self.camp2 = ck.campaign("structural rendering: print(hintE) vs the real hint; denote(hintE) vs typing.get_origin/get_args of the evaluated real hint" + sfx)
+        self.orc = ck.campaign("oracle on the real hints: parses, evaluates, same normal form in all 8 spellings, no Optional[Optional[, None once, optional keeps alternatives" + sfx)
+        self.reg = ck.campaign("hypotheses of the theorems evaluated on every tree (wfTree, freeTree, opRegion) and their conclusions on the real hints: region coverage" + sfx)
+
+
+def judge_tree(ck: Check, tc: TreeCampaigns, stream: str, d, reps: list[str], real: dict) -> None:
+    camp, camp2, orc, reg = tc.camp, tc.camp2, tc.orc, tc.reg
+    key = json.dumps(d, sort_keys=True, default=str)
+    trig, domain, hints = real["trig"], real["domain"], real["hints"]
+    plain_lits = "literal_special" not in trig
+    dens = {}
+    for n, o in enumerate(tt.OPTION_VECTORS):
+        rep, rep2 = reps[2 * n], reps[2 * n + 1]
+        if rep2.startswith("ok "):
+            dens[o] = unhx(rep2.split(" ")[3])
+        camp.evaluations += 1
+        impl = hints[o]
+        if impl[0] == "!exc":
+            camp.unmodelled += 1
+            camp.hit("real_raises:" + impl[1])
+            continue
+        if rep.startswith("ok "):
+            _, a, b = rep.split(" ")
+            model = (unhx(a), b == "1")
+        else:
+            model = rep
+        camp.hit(f"stream:{stream}")
+        if model != impl:
+            ck.disagree(camp, {"tree": d, "opts": list(o)}, model, impl)
+        elif len(camp.samples) < 3 and tt.size(d) > 2:
+            camp.samples.append({"tree": d, "opts": list(o), "hint": impl[0], "is_optional_after": impl[1]})
+        # structural rendering (typeHint_eq_print_typing / typeHint_eq_print_operator on the real code)
+        if rep2.startswith("ok "):
+            _, pe, fl, den, wf = rep2.split(" ")
+            camp2.evaluations += 1
+            camp2.hit(("wfTree:" if wf == "1" else "not_wfTree:") + ("operator" if o[0] else "typing"))
+            if wf == "1":
+                if (unhx(pe), fl == "1") != impl:
+                    ck.disagree(camp2, {"tree": d, "opts": list(o), "what": "print(hintE) on a wfTree"}, (unhx(pe), fl == "1"), impl)
+                elif domain and plain_lits:
+                    pyden = real["nfs"][o]
+                    if not pyden.startswith("!"):
+                        camp2.distinct.add((key, o))
+                        camp2.hit("denote_vs_eval:" + ("operator" if o[0] else "typing"))
+                        if pyden != unhx(den):
+                            ck.disagree(camp2, {"tree": d, "opts": list(o), "hint": impl[0], "what": "denote"}, unhx(den), pyden)
+                        elif len(camp2.samples) < 3 and tt.size(d) > 2:
+                            camp2.samples.append({"hint": impl[0], "normal_form": pyden})
+                    else:
+                        camp2.hit("real_hint_does_not_evaluate")
+    for t in trig:
+        camp.hit("tree:" + t)
+    camp.hit(f"size:{min(tt.size(d), 8)}")
+    if tt.size(d) > 1:
+        camp.distinct.add(key)
+    judge_region(ck, reg, d, key, reps[2 * len(tt.OPTION_VECTORS)], real)
+    # the property's own oracle, on the trees the property quantifies over
+    if domain:
+        orc.evaluations += 1
+        orc.hit(f"stream:{stream}")
+        for t in trig:
+            orc.hit("tree:" + t)
+        if "oracle_events" in real and not real["oracle_new"]:
+            # the oracle ran in a worker process: nothing new; its classified events (known findings) are recorded here
+            for cls, inp, observed in real["oracle_events"]:
+                ck.fail(cls, inp, observed)
+            if not real["oracle_events"]:
+                orc.distinct.add(key)
+        else:
+            oracle_tree(ck, orc, d, dens=dens, trig=trig)
+        if len(orc.samples) < 3 and tt.size(d) > 3:
+            orc.samples.append({"tree": d, "hints": {tt.opt_bits(o): v[0] for o, v in hints.items()}})
+
+
+def judge_region(ck: Check, reg, d, key: str, rep: str, real: dict) -> None:
+    """The decidable hypotheses of the new theorems on this tree, and — where they hold — the conclusions on the
+    REAL hints: none_once_operator, spelling_invariant_operator_partial (per container spelling),
+    spelling_invariant_partial (all eight).  A conclusion that fails inside the region is a model/code
+    disagreement; outside, how often the real spellings differ shows how tight the region is."""
+    reg.evaluations += 1
+    if not rep.startswith("ok "):
+        ck.disagree(reg, {"tree": d}, rep, "types.region reply")
+        return
+    _, wf, free, regs, why, rootok = rep.split(" ")
+    hints = real["hints"]
+    if any(v[0] == "!exc" for v in hints.values()):
+        reg.hit("real_raises")
+        return
+    if wf != "1":
+        reg.hit("outside:not_wfTree (a name or literal with [ ] , | or blanks, or an empty node)")
+        return
+    reg.hit("wfTree")
+    inside_all = regs == "1111"
+    if inside_all and free == "1":
+        reg.hit("region:inside (wfTree and freeTree and opRegionAll): all 8 spellings proved to denote the same")
+    elif inside_all:
+        reg.hit("region:operator-half only (a name is a container name: not freeTree)")
+    else:
+        reg.hit("region:outside opRegion")
+        if why[0] == "1":
+            reg.hit("outside:why:a union member renders as Any")
+        if why[1] == "1":
+            reg.hit("outside:why:optional member of a union that is itself the list/set/dict (C13-F4)")
+        if why[2] == "1":
+            reg.hit("outside:why:list/set/dict union of Nones (C13-F3)")
+    evaluable, nnone, nwrap = real["evaluable"], real["nnone"], real["nwrap"]
+    # none_once_operator / no_optional_wrapper_operator: every wfTree, the four `|` spellings
+    for o in tt.OPTION_VECTORS:
+        if o[0] and o in nnone:
+            reg.hit("checked:none_once_operator")
+            if nnone[o] > 1 or nwrap[o]:
+                ck.disagree(reg, {"tree": d, "opts": list(o), "theorem": "none_once_operator"}, "None at most once per union, no Optional[/Union[", hints[o][0])
+    # the statement vocabulary: rootOK (Lean) vs none_counts (the oracle's) on the real hints
+    for bit, o in zip(rootok, (TYPING0, OPERATOR0)):
+        if o in nnone:
+            py = nnone[o] <= 1
+            reg.hit("checked:rootOK_vs_none_counts")
+            if py != (bit == "1"):
+                ck.disagree(reg, {"tree": d, "opts": list(o), "what": "rootOK vs none_counts"}, bit == "1", py)
+    if not evaluable:
+        reg.hit("conclusions_not_evaluated (names that are not identifiers / typing names as types)")
+        return
+    nfs = real["nfs"]
+    # spelling_invariant_operator_partial, per container spelling
+    differs_somewhere = False
+    for k, (std, gen) in enumerate(CONTAINER_SPELLINGS):
+        a, b = nfs[(False, std, gen)], nfs[(True, std, gen)]
+        if a.startswith("!") or b.startswith("!"):
+            reg.hit("instance_not_evaluable")
+            continue
+        if a != b:
+            differs_somewhere = True
+        if regs[k] == "1":
+            reg.hit("checked:spelling_invariant_operator_partial")
+            reg.distinct.add((key, k))
+            if a != b:
+                ck.disagree(reg, {"tree": d, "container_spelling": [std, gen], "theorem": "spelling_invariant_operator_partial"},
+                            "same denotation", f"{hints[(False, std, gen)][0]!r} -> {a}; {hints[(True, std, gen)][0]!r} -> {b}")
+    vals = {v for v in nfs.values() if not v.startswith("!")}
+    if inside_all and free == "1" and len(vals) == len({*nfs.values()}):
+        reg.hit("checked:spelling_invariant_partial")
+        if len(vals) > 1:
+            ck.disagree(reg, {"tree": d, "theorem": "spelling_invariant_partial"}, "one denotation", sorted(vals))
+    if not inside_all:
+        reg.hit("outside:real_spellings_differ" if differs_somewhere else "outside:real_spellings_agree")
+    if len(reg.samples) < 2 and inside_all and free == "1" and tt.size(d) > 3:
+        reg.samples.append({"tree": d, "inside": True, "hints": {tt.opt_bits(o): v[0] for o, v in hints.items()}})
+
+
 def campaign_trees(ck: Check, n_plain: int, n_adv: int, thorough: bool) -> None:
-    camp = ck.campaign("types.hint vs DataType(...).type_hint and is_optional afterwards (8 option vectors per tree)")
-    camp2 = ck.campaign("structural rendering: print(hintE) vs the real hint; denote(hintE) vs typing.get_origin/get_args of the evaluated real hint")
-    orc = ck.campaign("oracle on the real hints: parses, evaluates, same normal form in all 8 spellings, no Optional[Optional[, None once, optional keeps alternatives")
+    tc = TreeCampaigns(ck)
     t0 = time.time()
     cases = list(tree_stream(ck, n_plain, n_adv, thorough))
     reqs = []
     for _, d in cases:
-        s = tt.sx(d)
-        for o in tt.OPTION_VECTORS:
-            reqs.append(f"types.hint {tt.opt_bits(o)} {s}")
-            reqs.append(f"types.hintexpr {tt.opt_bits(o)} {s}")
+        reqs.extend(tree_requests(d))
     reps = ck.driver.run(reqs)
-    i = 0
     t1 = time.time()
-    for stream, d in cases:
-        key = json.dumps(d, sort_keys=True, default=str)
-        domain = in_ir_domain(d)
-        per_opts = {}
-        for o in tt.OPTION_VECTORS:
-            rep, rep2 = reps[i], reps[i + 1]
-            i += 2
-            camp.evaluations += 1
-            impl = real_hint(d, o)
-            per_opts[o] = impl
-            if impl[0] == "!exc":
-                camp.unmodelled += 1
-                camp.hit("real_raises:" + impl[1])
-                continue
-            if rep.startswith("ok "):
-                _, a, b = rep.split(" ")
-                model = (unhx(a), b == "1")
-            else:
-                model = rep
-            camp.hit(f"stream:{stream}")
-            if model != impl:
-                ck.disagree(camp, {"tree": d, "opts": list(o)}, model, impl)
-            elif len(camp.samples) < 3 and tt.size(d) > 2:
-                camp.samples.append({"tree": d, "opts": list(o), "hint": impl[0], "is_optional_after": impl[1]})
-            # structural rendering
-            if rep2.startswith("ok "):
-                _, pe, fl, den, wf = rep2.split(" ")
-                camp2.evaluations += 1
-                camp2.hit("wfTree" if wf == "1" else "not_wfTree")
-                if wf == "1":
-                    if (unhx(pe), fl == "1") != impl:
-                        ck.disagree(camp2, {"tree": d, "opts": list(o), "what": "print(hintE) on a wfTree"}, (unhx(pe), fl == "1"), impl)
-                    elif domain and "literal_special" not in triggers(d):
-                        try:
-                            pyden = nf(eval_hint(impl[0]))
-                        except Exception as e:  # noqa: BLE001
-                            pyden = f"!{type(e).__name__}"
-                        if not pyden.startswith("!"):
-                            camp2.distinct.add((key, o))
-                            if pyden != unhx(den):
-                                ck.disagree(camp2, {"tree": d, "opts": list(o), "hint": impl[0], "what": "denote"}, unhx(den), pyden)
-                            elif len(camp2.samples) < 3 and tt.size(d) > 2:
-                                camp2.samples.append({"hint": impl[0], "normal_form": pyden})
-                        else:
-                            camp2.hit("real_hint_does_not_evaluate")
-        for t in triggers(d):
-            camp.hit("tree:" + t)
-        camp.hit(f"size:{min(tt.size(d), 8)}")
-        if tt.size(d) > 1:
-            camp.distinct.add(key)
-        # the property's own oracle, on the trees the property quantifies over
-        if domain:
-            orc.evaluations += 1
-            orc.hit(f"stream:{stream}")
-            for t in triggers(d):
-                orc.hit("tree:" + t)
-            oracle_tree(ck, orc, d)
-            if len(orc.samples) < 3 and tt.size(d) > 3:
-                orc.samples.append({"tree": d, "hints": {tt.opt_bits(o): v[0] for o, v in per_opts.items()}})
-    camp.wall_s = t1 - t0
-    orc.wall_s = time.time() - t1
+    for i, (stream, d) in enumerate(cases):
+        judge_tree(ck, tc, stream, d, reps[i * N_REQ : (i + 1) * N_REQ], real_side(d))
+    tc.camp.wall_s = t1 - t0
+    tc.orc.wall_s = time.time() - t1
+    region_note(ck, tc.reg, "seeded trees")
+
+
+def region_note(ck: Check, reg, label: str) -> None:
+    dist = reg.distribution
+    ck.notes[f"region coverage ({label})"] = {k: v for k, v in sorted(dist.items()) if k.startswith(("region:", "outside:", "wfTree"))}
+
+
+def campaign_exhaustive(ck: Check) -> None:
+    """Thorough tier: ALL trees of depth ≤ 3 over the six-atom vocabulary (121 806) and ALL fully decorated trees of
+    depth ≤ 2 (36 660), in all 8 spellings.  The real side and the oracle run in worker processes; the model side is
+    one driver batch per chunk; every comparison happens here."""
+    from concurrent.futures import ProcessPoolExecutor
+
+    tc = TreeCampaigns(ck, "exhaustive small scope")
+    t0 = time.time()
+    chunk, workers = 1500, max(2, min(14, (os.cpu_count() or 4) - 2))
+    for stream, gen in (("exhaustive_depth3", tt.exhaustive_depth3), ("exhaustive_depth2_decorated", tt.exhaustive_depth2)):
+        trees = list(gen())
+        chunks = [trees[i : i + chunk] for i in range(0, len(trees), chunk)]
+        with ProcessPoolExecutor(max_workers=workers) as pool:
+            futures = [pool.submit(_worker, c) for c in chunks]
+            for c, fut in zip(chunks, futures):
+                reqs = []
+                for d in c:
+                    reqs.extend(tree_requests(d))
+                reps = ck.driver.run(reqs)
+                reals = fut.result()
+                for i, (d, real) in enumerate(zip(c, reals)):
+                    judge_tree(ck, tc, stream, d, reps[i * N_REQ : (i + 1) * N_REQ], real)
+        tc.reg.hit(f"trees:{stream}", len(trees))
+    tc.camp.wall_s = time.time() - t0
+    region_note(ck, tc.reg, "exhaustive small scope")
 
 
 def campaign_field(ck: Check, n: int) -> None:
@@ -561,6 +981,17 @@ def campaign_field(ck: Check, n: int) -> None:
         elif len(camp.samples) < 2:
             camp.samples.append({"tree": d, "opts": list(o), "field": fb, "hint": impl})
     camp.wall_s = time.time() - t0
+    # the property's own oracle one level up: the annotation of the FIELD in all 8 spellings
+    orc = ck.campaign("oracle on the field annotations (DataModelFieldBase.type_hint / TypedDict member): well-formed and the same type in all 8 spellings")
+    t1 = time.time()
+    for d, _, fb in cases:
+        trig = triggers(d)
+        if NOT_IR & set(trig):
+            continue
+        orc.evaluations += 1
+        orc.hit("decision:" + ("default_factory" if fb["default_factory"] else "nullable" if fb["nullable"] is not None else "required" if fb["required"] else "fallback" if not fb["typed_dict"] else "not_required"))
+        oracle_field(ck, orc, d, fb, trig=trig)
+    orc.wall_s = time.time() - t1
 
 
 N = tt.node
@@ -582,6 +1013,62 @@ CORPUS = [
     N(ref={"name": "a.b.Pet", "nullable": True}, list_=True),
     N(kids=[N(ty="int"), N(ty="int")]),
     N(kids=[N(ty="List"), N(list_=True)]),
+    # literal values with characters the two None removals must not read: commas (harmless on the pinned code),
+    # an unpaired bracket in the | spelling (harmless there), nested under a container
+    N(kids=[N(lits=["a,b", "x ,y"]), N(ty="int")], opt=True),
+    N(kids=[N(ty="int"), N(lits=["x[", "y"]), N(ty="bool")], opt=True),
+    N(kids=[N(kids=[N(lits=[",", "p ,  q"]), N(ty="str")], opt=True), N(ty="int")], list_=True),
+    N(kids=[N(lits=["]", "k"]), N(ty="int"), N(ty="None")], dict_=True),
+]
+
+
+def search_from_disagreements(ck: Check) -> None:
+    """A correspondence broke: the inputs on which model and code disagree are the first candidates — put each
+    disagreeing tree (and field) through the property's own oracle; then targeted families around the two string
+    surgeries: unions with literal values containing , [ ] | and blanks, optional / nested / in containers."""
+    camp = ck.campaign("search: disagreeing inputs and targeted literal unions through the oracle")
+    seen = set()
+    for dis in list(ck.disagreements):
+        inp = dis.input if isinstance(dis.input, dict) else {}
+        d = inp.get("tree")
+        if d is None:
+            continue
+        k = json.dumps([d, inp.get("field")], sort_keys=True, default=str)
+        if k in seen or len(seen) > 200:
+            continue
+        seen.add(k)
+        camp.evaluations += 1
+        if inp.get("field") is not None:
+            oracle_field(ck, camp, d, inp["field"])
+        else:
+            oracle_tree(ck, camp, d, dens=model_dens(ck, d))
+        if ck.failures:
+            return
+    vals = ["a,b", "x ,y", ",", "p ,  q", "x[", "]", "[]", "a|b", "u | v", "m  |  n", "None | z", "w"]
+    others = [[N(ty="int")], [N(ty="int"), N(ty="bool")], [N(ty="str", opt=True)], [N(ty="None"), N(ty="int")]]
+    for v in vals:
+        for w in ("k", v):
+            for rest in others:
+                for first in (True, False):
+                    lit = N(lits=[v] if w == v else [v, w])
+                    kids = [lit] + rest if first else rest[:1] + [lit] + rest[1:]
+                    for shape in (N(kids=kids), N(kids=kids, opt=True), N(kids=[N(kids=kids, opt=True)], list_=True), N(kids=[N(kids=kids), N(ty="float", opt=True)])):
+                        camp.evaluations += 1
+                        oracle_tree(ck, camp, shape, dens=model_dens(ck, shape))
+                        if ck.failures:
+                            return
+    # fields: the decision on top of the type, every small tree × the field settings
+    for d in tt.small_scope(2):
+        for fb in FIELD_SETTINGS:
+            camp.evaluations += 1
+            oracle_field(ck, camp, d, fb)
+            if ck.failures:
+                return
+
+
+FIELD_SETTINGS = [
+    {"default_factory": False, "nullable": nl, "required": rq, "type_has_null": tn, "typed_dict": td}
+    for nl in (None, True, False) for rq in (False, True) for tn in (None, True) for td in (False, True)
 ]
 
 
@@ -608,7 +1095,11 @@ def known_findings(ck: Check) -> None:
         probe = Check(ck.prop, ck.tier)
         probe.findings = []
         camp = probe.campaign("witness")
-        oracle_tree(probe, camp, f["witness"]["tree"])
+        d = f["witness"]["tree"]
+        if f["witness"].get("field") is not None:
+            oracle_field(probe, camp, d, f["witness"]["field"], embed=False)
+        else:
+            oracle_tree(probe, camp, d, dens=model_dens(ck, d), embed=False)
         if probe.failures:
             ck.known(f["id"], f["what"])
 
@@ -626,7 +1117,10 @@ def run(ck: Check) -> None:
     campaign_isspace(ck)
     campaign_strings(ck, 1500 if quick else 20000)
     campaign_trees(ck, 1500 if quick else 6000, 400 if quick else 3000, thorough=not quick)
+    if not quick:
+        campaign_exhaustive(ck)
     campaign_field(ck, 600 if quick else 6000)
+    ck.search_hooks.append(search_from_disagreements)
     ck.search_hooks.append(search_trees)
     known_findings(ck)
 
@@ -635,8 +1129,10 @@ def replay(ck: Check, path: str) -> int:
     data = json.loads(open(path).read())
     inp = data.get("input") or {}
     camp = ck.campaign("replay")
-    if "tree" in inp:
-        oracle_tree(ck, camp, inp["tree"])
+    if "tree" in inp and inp.get("field") is not None:
+        oracle_field(ck, camp, inp["tree"], inp["field"])
+    elif "tree" in inp:
+        oracle_tree(ck, camp, inp["tree"], dens=model_dens(ck, inp["tree"]))
     for f in ck.failures:
         print("REPLAY-FAILS:", json.dumps(f.classification), f.observed[:300])
     if not ck.failures:
